@@ -63,7 +63,8 @@ package libmem
 //@   ensures[C06] a.journal != nil && !old(req.id in a.journal.reverts) ==> dom(a.journal.reverts) == upd(old(dom(a.journal.reverts)), req.id, true) && vals(a.journal.reverts) == upd(old(vals(a.journal.reverts)), req.id, 0)
 //@   ensures[C06] a.journal != nil ==> forall id string :: origd(a, id) == old(origd(a, id)) && origv(a, id) == old(origv(a, id))
 //@   ensures[C06] forall k string :: k != req.id ==> (k in a.zones[zone].users) == old(zone in a.zones && k in a.zones[zone].users) && (old(zone in a.zones) ==> a.zones[zone].users[k] == old(a.zones[zone].users[k]))
-//@   ensures[C06] a.requests == old(a.requests) && a.journal == old(a.journal)
+//@   ensures[C06] a.requests == old(a.requests) && a.journal == old(a.journal) && dom(a.requests) == old(dom(a.requests)) && vals(a.requests) == old(vals(a.requests))
+//@   ensures[C06] old(rwf(a)) && req.id in a.requests && a.requests[req.id] == req ==> rwf(a)
 
 //@ func (*Allocator).zoneRemove ints=bv64
 //@   requires awf(a)
@@ -79,6 +80,8 @@ package libmem
 //@   ensures[C06] a.journal != nil ==> forall id string :: origd(a, id) == old(origd(a, id)) && origv(a, id) == old(origv(a, id))
 //@   ensures[C06] hit ==> forall k string :: k != id ==> (k in a.zones[zone].users) == old(k in a.zones[zone].users) && a.zones[zone].users[k] == old(a.zones[zone].users[k])
 //@   ensures[C06] forall z NodeMask :: (z in a.zones) == old(z in a.zones) && a.zones[z] == old(a.zones[z])
+//@   ensures[C06] old(rwf(a)) ==> rwf(a)
+//@   ensures[C06] a.requests == old(a.requests) && a.journal == old(a.journal) && dom(a.requests) == old(dom(a.requests)) && vals(a.requests) == old(vals(a.requests))
 
 //@ func (*Allocator).zoneMove ints=bv64
 //@   requires awf(a) && req != nil && zone != 0 && (req.id in a.users ==> a.zones[a.users[req.id]].users[req.id] == req)
@@ -95,6 +98,10 @@ package libmem
 //@   ensures[C06] !same && a.journal != nil && !old(req.id in a.journal.reverts) ==> dom(a.journal.reverts) == upd(old(dom(a.journal.reverts)), req.id, true) && vals(a.journal.reverts) == upd(old(vals(a.journal.reverts)), req.id, had ? from : 0)
 //@   ensures[C06] same && a.journal != nil ==> dom(a.journal.updates) == old(dom(a.journal.updates)) && vals(a.journal.updates) == old(vals(a.journal.updates)) && dom(a.journal.reverts) == old(dom(a.journal.reverts)) && vals(a.journal.reverts) == old(vals(a.journal.reverts))
 //@   ensures[C06] a.journal != nil ==> forall id string :: origd(a, id) == old(origd(a, id)) && origv(a, id) == old(origv(a, id))
+//@   ensures[C06] old(rwf(a)) && req.id in a.requests && a.requests[req.id] == req ==> rwf(a)
+//@   ensures[C06] a.requests == old(a.requests) && a.journal == old(a.journal) && req.id in a.users && a.users[req.id] == zone
+//@   ensures[C06] dom(a.requests) == old(dom(a.requests)) && vals(a.requests) == old(vals(a.requests))
+//@   ensures[C06] forall id string :: id != req.id ==> (id in a.users) == old(id in a.users) && a.users[id] == old(a.users[id])
 
 // ---- journal life cycle ---------------------------------------------------------------------------------
 // The assignment view a transaction started from is recoverable from the journal:
@@ -139,3 +146,44 @@ package libmem
 //@   invariant forall id string :: seen(id) ==> (id in a.users) == (j.reverts[id] != 0) && a.users[id] == j.reverts[id]
 //@   invariant forall id string :: !seen(id) ==> (id in a.users) == old(id in a.users) && a.users[id] == old(a.users[id])
 //@   invariant forall z NodeMask, id string :: z in a.zones && id in a.zones[z].users ==> id in a.requests && a.requests[id] == a.zones[z].users[id]
+
+// ---- transactions -----------------------------------------------------------------------------------------
+
+//@ pure jassigned(a *Allocator) bool = a.journal != nil ==> forall id string :: id in a.journal.reverts ==> id in a.users
+//@ pure txn(a *Allocator) bool = awf(a) && rwf(a) && a.journal != nil && jassigned(a)
+//@ pure nocustom(a *Allocator) bool = a.custom.ExpandZone == nil && a.custom.HandleOvercommit == nil
+
+// SortRequests (map iteration, filtering closure, slices.SortFunc) is assumed: it returns requests stored in the map.
+//@ assume-contract SortRequests
+//@   modifies nothing
+//@   ensures forall j int :: 0 <= j && j < len(result) ==> result[j] != nil && result[j].id in requests && requests[result[j].id] == result[j]
+//@   ensures forall i int, j int :: 0 <= i && i < j && j < len(result) ==> result[i] != result[j]
+
+// Zone expansion only reads the allocator (default expansion; custom callbacks are excluded by nocustom).
+//@ func (*Allocator).expand ints=bv64 tags=C06 inline=12
+//@   requires a != nil && a.custom.ExpandZone == nil
+//@   modifies nothing
+
+//@ func (*Allocator).checkOvercommit ints=bv64 tags=C06
+//@   requires a != nil
+//@   modifies nothing
+//@ loop 0 in (*Allocator).checkOvercommit at "range a.zones"
+//@   modifies spill[*]
+//@   invariant newobj(zones) && newobj(spill)
+
+//@ func (*Allocator).zoneShrinkUsage ints=bv64
+//@   requires txn(a) && nocustom(a)
+//@   ensures[C06] txn(a) && a.journal == old(a.journal) && a.requests == old(a.requests) && dom(a.requests) == old(dom(a.requests)) && vals(a.requests) == old(vals(a.requests))
+//@   ensures[C06] forall id string :: origd(a, id) == old(origd(a, id)) && origv(a, id) == old(origv(a, id))
+//@   ensures[C07] forall id string :: old(id in a.users) ==> id in a.users && (a.users[id] & old(a.users[id])) == old(a.users[id])
+//@ loop 0 in (*Allocator).zoneShrinkUsage at "range SortRequests"
+//@   invariant txn(a) && a.journal == old(a.journal) && a.requests == old(a.requests) && dom(a.requests) == old(dom(a.requests)) && vals(a.requests) == old(vals(a.requests))
+//@   invariant forall id string :: origd(a, id) == old(origd(a, id)) && origv(a, id) == old(origv(a, id))
+//@   invariant forall id string :: old(id in a.users) ==> id in a.users && (a.users[id] & old(a.users[id])) == old(a.users[id])
+//@   invariant nocustom(a) && nodes != 0
+//@   invariant forall j int :: 0 <= j && j < len($t36) ==> $t36[j] != nil && $t36[j].id in a.requests && a.requests[$t36[j].id] == $t36[j]
+//@   invariant forall i int, j int :: 0 <= i && i < j && j < len($t36) ==> $t36[i] != $t36[j]
+//@   invariant forall j int :: rangeindex < j && j < len($t36) ==> $t36[j].id in a.users && a.users[$t36[j].id] == zone
+//@ assert[C06] in (*Allocator).zoneShrinkUsage at "a.zoneMove(zone|nodes, req)": req != nil && req.id in a.requests && a.requests[req.id] == req
+//@ assert[C07] in (*Allocator).zoneShrinkUsage at "a.zoneMove(zone|nodes, req)": forall j int :: rangeindex + 1 < j && j < len($t36) ==> $t36[j].id != req.id
+//@ assert[C07] in (*Allocator).zoneShrinkUsage at "a.zoneMove(zone|nodes, req)": req.id in a.users && a.users[req.id] == zone
